@@ -255,10 +255,29 @@ theorem convertsOn_ne_panic (t : Conv.Ty) (input : List Val) : convertsOn t inpu
   · split <;> simp
   · simp
 
+theorem roundVal_ne_panic (p : Int) (v : Val) : roundVal p v ≠ .panic := by
+  unfold roundVal; split <;> simp
+
+theorem caseOn_ne_panic (f : Char → Char) (input : List Val) : caseOn f input ≠ .panic := by
+  unfold caseOn
+  split
+  · simp
+  · exact bind_ne_panic _ _ (toStr_ne_panic _) fun b => bind_ne_panic _ _ (chars_ne_panic _) fun s => by split <;> simp
+  · simp
+
+theorem clockFn_ne_panic (name : String) (env : Env) : clockFn name env ≠ .panic := by
+  unfold clockFn
+  split
+  · exact bind_ne_panic _ _ (chars_ne_panic _) fun t => by
+      simp only []; split <;> simp
+  · simp
+
 theorem apply0_ne_panic (name : String) (input : List Val) : apply0 name input ≠ .panic := by
   unfold apply0
   split <;> first
     | (simp; done)
+    | (split <;> first | (simp; done) | exact roundVal_ne_panic _ _)
+    | exact caseOn_ne_panic _ _
     | exact mapRes_ne_panic _ _ (notFn_ne_panic _)
     | exact onString_ne_panic _ _ (fun s => by simp)
     | exact mathOn_ne_panic _ _
@@ -353,6 +372,13 @@ theorem apply1_ne_panic (name : String) (a : Ev) (ha : ∀ i, a i ≠ .panic) (i
   · exact onString_ne_panic _ _ fun s => bind_ne_panic _ _ (ha _) fun av => strArg1_ne_panic _ _ fun p => by simp
   · exact onString_ne_panic _ _ fun s => bind_ne_panic _ _ (ha _) fun av => strArg01_ne_panic _ _ fun p => by simp
   · exact onString_ne_panic _ _ fun s => bind_ne_panic _ _ (ha _) fun av => intArg1_ne_panic _ _ fun st => by simp
+  · split
+    · simp
+    · exact bind_ne_panic _ _ (ha _) fun av => bind_ne_panic _ _ (toInt32_ne_panic _) fun p => by
+        split
+        · simp
+        · exact roundVal_ne_panic _ _
+    · simp
   · simp
 
 theorem apply2_ne_panic (name : String) (a b : Ev) (ha : ∀ i, a i ≠ .panic) (hb : ∀ i, b i ≠ .panic) (input : List Val) :
@@ -445,7 +471,12 @@ theorem eval_ne_panic_aux (env : Env) (e : E) : (∀ input, eval env e input ≠
     by_cases hn : name = "unimplemented!"
     · subst hn; simp [eval]
     · cases args with
-      | argNil => simp only [eval, hn]; first | exact apply0_ne_panic _ _ | (simp [hn]; exact apply0_ne_panic _ _)
+      | argNil =>
+        have : eval env (.fn name .argNil) input = if isClockFn name then clockFn name env else apply0 name input := by
+          simp [eval, hn]
+        rw [this]; split
+        · exact clockFn_ne_panic _ _
+        · exact apply0_ne_panic _ _
       | argCons a r =>
         simp only [ArgsOK] at hargs
         cases r with
